@@ -2,7 +2,7 @@
 From Coq Require Import String.
 From Coq Require Import List Ascii ZArith Bool Lia.
 From CGV Require Import Base.PyBase Base.PyVal Base.NxGraph Resolve.Bonding Resolve.GraphOps Resolve.Pipeline
-     Resolve.StepCheck Resolve.MapDefs.
+     Resolve.StepCheck Resolve.PipelineFull Resolve.FullCheck Resolve.MapDefs.
 Import ListNotations.
 Open Scope Z_scope.
 
@@ -17,7 +17,7 @@ Inductive case :=
 
 Definition corr_ok (c : case) : bool :=
   match c with
-  | CStep s => step_corr s
+  | CStep s => step_corr s && full_corr s
   | CDet _ _ => true
   | CBlocks s impl => strs_eqb (find_blocks s) impl
   | CSort g impl => match sort_nodes_by_attr g, impl with
